@@ -301,6 +301,8 @@ impl ::core::fmt::Display for Point { fn fmt(&self, f: &mut ::core::fmt::Formatt
 impl ::core::str::FromStr for Point { type Err = String; fn from_str(s: &str) -> Result<Self, String> {
     let mut it = s.split(','); let a = it.next().ok_or("x")?.parse::<i32>().map_err(|e| e.to_string())?;
     let b = it.next().ok_or("y")?.parse::<i32>().map_err(|e| e.to_string())?; if it.next().is_some() { return Err("extra".into()); } Ok(Point(a, b)) } }
+// an inherent, LENIENT `from_str` next to the strict trait impl: `FromStr` of a newtype around Point must go through the trait
+impl Point { pub fn from_str(s: &str) -> Result<Self, String> { let t = s.trim().replace(';', ","); <Point as ::core::str::FromStr>::from_str(&t) } }
 impl Enc for Point { fn enc(&self) -> Value { json!([self.0.to_string(), self.1.to_string()]) } }
 impl Dec for Point { fn dec(v: &Value) -> Self { let a = v.as_array().unwrap(); Point(<i32 as Dec>::dec(&a[0]), <i32 as Dec>::dec(&a[1])) } }
 """
